@@ -95,9 +95,54 @@ class Ghost:
 
 def helper(x):
     return x + 1
+
+
+import dataclasses
+
+
+class Deck:
+    """a class that holds its helper classes: their __qualname__ differs from the name the story imports"""
+
+    class Card:
+        def __init__(self, rank, suit):
+            self.rank = rank
+            self.suit = suit
+
+        def label(self):
+            return f"{self.rank!r} of {self.suit!r}"
+
+
+Card = Deck.Card
+
+
+@dataclasses.dataclass(frozen=True)
+class Coin:
+    """an immutable value object: attribute assignment outside __init__ raises"""
+    face: object
+    worth: object
+
+    def double(self):
+        return (self.worth, self.worth)
+
+
+class Sealed:
+    """accepts attribute assignment only for its declared fields, and validates them"""
+    _fields = ("tag", "body")
+
+    def __init__(self, tag, body):
+        self.tag = tag
+        self.body = body
+
+    def __setattr__(self, k, v):
+        if k not in self._fields:
+            raise AttributeError(k)
+        object.__setattr__(self, k, v)
+
+    def show(self):
+        return [self.tag, type(self.body).__name__]
 '''
 
-STORY_SRC = '''from c06mod import Plain, Secret, Box, Hero, helper
+STORY_SRC = '''from c06mod import Plain, Secret, Box, Hero, helper, Card, Coin, Sealed
 from bardic.stdlib.economy import Wallet
 from bardic.stdlib.inventory import Inventory
 from bardic.stdlib.relationship import Relationship
@@ -250,6 +295,8 @@ def gen(rng, depth, py_only=False, unsupported=False):
         return ("hero", sub(), rng.choice([0, 1, 3, 99]), sub())
     if k < 0.97:
         return ("wallet", rng.choice([0, 5, 30, 1000]))
+    if py_only and rng.random() < 0.45:
+        return (rng.choice(["card", "coin", "sealed"]), sub(), sub())
     if py_only and rng.random() < 0.5:
         return ("rel", rng.choice(["Alex", "Sam"]), rng.choice([0, 35, 60, 100]), rng.choice([0, 50, 100]),
                 rng.choice([-10, 0, 4, 10]), rng.sample(["past", "work", "family"], rng.randint(0, 3)))
@@ -280,6 +327,12 @@ def build(w: World, s):
         return m.Box(build(w, s[1]), build(w, s[2]), [build(w, x) for x in s[3]])
     if t == "hero":
         return m.Hero(build(w, s[1]), s[2], build(w, s[3]))
+    if t == "card":
+        return m.Card(build(w, s[1]), build(w, s[2]))
+    if t == "coin":
+        return m.Coin(build(w, s[1]), build(w, s[2]))
+    if t == "sealed":
+        return m.Sealed(build(w, s[1]), build(w, s[2]))
     if t == "wallet":
         return w.Wallet(s[1])
     if t == "inventory":
@@ -322,7 +375,7 @@ def spec_stats(s, depth=1):
         kids = s[1]
     elif t == "dict":
         kids = [x for _, x in s[1]]
-    elif t in ("plain", "secret"):
+    elif t in ("plain", "secret", "card", "coin", "sealed"):
         kids = [s[1], s[2]]
     elif t == "box":
         kids = [s[1], s[2]] + list(s[3])
@@ -490,6 +543,12 @@ def probes(w: World, o):
         return (o.count(),)
     if isinstance(o, m.Hero):
         return (o.alive(),)
+    if isinstance(o, m.Card):           # the methods answer (contents are compared attribute by attribute above)
+        return (isinstance(o.label(), str),)
+    if isinstance(o, m.Coin):
+        return (len(o.double()),)
+    if isinstance(o, m.Sealed):
+        return (len(o.show()),)
     return ()
 
 
@@ -792,7 +851,7 @@ def run(tier: str, seed: int) -> int:
             state_case(f"py:{sub_seed}", specs, coq=False)
             for s in specs.values():
                 depth, kinds, nested = spec_stats(s)
-                for kk in kinds & {"rel", "float"}:
+                for kk in kinds & {"rel", "float", "card", "coin", "sealed"}:
                     bump(dist["kinds"], kk)
                 chk.count(("p", repr(s)), nested >= 1 and depth >= 3)
 
